@@ -320,7 +320,7 @@ def s_read_headers_incomplete(vc):
 def s_read_headers_blank(vc):
     """(P) of L-SEG for the step read_headers: a step that consumed bytes without producing a message (h11 swallows an empty
     line in front of a start-line and answers []) must be re-run on what is left, otherwise the bytes behind the empty line
-    are only looked at when the *next* segment arrives (outcome depends on segmentation).  Recorded defect KF-C02-1."""
+    are only looked at when the *next* segment arrives (outcome depends on segmentation; was KF-C02-1, fixed in 26986f611)."""
     from props.httpstream import mk_request
     cls = vc.case("side", [H1S, H1CL])
     rest = vc.sym_bytes("rest")
@@ -331,7 +331,7 @@ def s_read_headers_blank(vc):
     out = vc.call(cls + ".read_headers", o, ev)
     vc.ensure("no_exception", out.ok)
     vc.ensure("empty_line_consumed", buf_data(vc, o.buf) == rest)
-    vc.ensure_kf("rest_is_looked_at_in_the_same_step", o.buf.extract_calls >= 2, "KF-C02-1", True)
+    vc.ensure("rest_is_looked_at_in_the_same_step", o.buf.extract_calls >= 2)
 
 
 @scenario("server_send.stream_id", functions=[H1S + ".send"])
@@ -504,17 +504,10 @@ def bounded(tier, seed):
     return b
 
 
-KF_BLANK = "KF-C02-1"  # an empty line in front of a request consumes the read_headers step: the request behind it is only parsed when more data arrives
-
-
 def _report(b, check, inp, base, got, label):
     names = ["hook sequence", "flows", "upstream messages", "downstream messages", "client connection closed", "tunnel data"]
     diff = [n for n, x, y in zip(names, base, got) if x != y] if base[0] != "error" and got[0] != "error" else ["error"]
-    blank = inp["stream"].startswith("\r\n") or "\r\n\r\n\r\n" in inp["stream"] or "abc\r\n" in inp["stream"]
-    if blank:
-        b.fail(f"{check}[{KF_BLANK}]", dict(inp, **{"class": KF_BLANK}), f"differs from whole-stream delivery in: {diff}; whole: {str(base)[:600]} ... this run: {str(got)[:600]}")
-    else:
-        b.fail(check, inp, f"differs from whole-stream delivery in: {diff}; whole: {str(base)[:700]} ... this run: {str(got)[:700]}")
+    b.fail(check, inp, f"differs from whole-stream delivery in: {diff}; whole: {str(base)[:700]} ... this run: {str(got)[:700]}")
 
 
 def _check_matching(b, ex, inp):
